@@ -7,6 +7,8 @@ from discopy.drawing import Node, draw_box, add_drawing_attributes
 def draw_discard(backend, positions, node, **params):
     """ Draws a :class:`discopy.quantum.circuit.Discard` box. """
     box, depth = node.box, node.depth
+    if not box.dom:
+        return backend  # discarding nothing: there is no wire to end.
     left_dom, right_dom = (
         Node("dom", obj=box.dom[i], i=i, depth=depth)
         for i in [0, len(box.dom) - 1])
